@@ -41,7 +41,7 @@ async fn one_case(log: &Log, r: &mut Rng, c: &Value, http: &str, shard: u8, k: u
     };
     let origin = if reach { Some(net::start_target(&format!("{}:0", a4), TargetMode::Sink).await) } else { None };
     let explicit = s("port") == "explicit";
-    let a_port: u16 = match &origin { Some(t) => t.addr.port(), None => if explicit { 20000 + (k % 20000) as u16 } else { 0 } };
+    let a_port: u16 = match &origin { Some(t) => t.addr.port(), None => if explicit { 20000 + (k % 10000) as u16 } else { 0 } };
     let auth_a = if a_port != 0 { format!("{}:{}", a_text, a_port) } else { a_text.clone() };
     let b_port: u16 = if r.chance(1, 2) { 8081 } else { 0 };
     let auth_b = if b_port != 0 { format!("{}:{}", b4, b_port) } else { b4.to_string() };
